@@ -597,6 +597,11 @@ func (tr *FnCtx) havocLoop(li *loopInfo, st *State) {
 					if _, isArr := et.Underlying().(*types.Array); !isArr || tr.W.isOpaqueNamed(et) {
 						addC(tr.W.cellComps(et)...)
 					}
+					if stru, ok := structOf(et); ok && tr.W.isOpaqueNamed(et) {
+						for i := 0; i < stru.NumFields(); i++ {
+							addC(tr.W.fieldComps(et, stru.Field(i).Name(), stru.Field(i).Type())...)
+						}
+					}
 				} else {
 					cs, _ := tr.storeTargets(x)
 					addC(cs...)
@@ -910,7 +915,7 @@ func isLogPkg(path string) bool {
 var pureExternalPrefixes = []string{"fmt.", "errors.", "github.com/friendsofgo/errors.", "github.com/pkg/errors.", "(github.com/gofrs/uuid.", "github.com/gofrs/uuid.",
 	"path.", "strings.", "strconv.", "(time.Time).", "(time.Duration).", "time.Since", "time.Now", "time.Sleep", "time.After", "context.", "(context.",
 	"(*github.com/friendsofgo/errors.", "(error).Error", "(*sync.WaitGroup).", "sync/atomic.", "(*sync.Mutex).", "(*sync.Once).", "os.", "(*os.File).", "math.", "unicode.", "bytes.",
-	"github.com/taskctl/taskctl/pkg/", "(*github.com/taskctl/taskctl/pkg/", "(github.com/taskctl/taskctl/pkg/", "(context.Context)."}
+	"gopkg.in/yaml.v2.NewDecoder", "github.com/taskctl/taskctl/pkg/", "(*github.com/taskctl/taskctl/pkg/", "(github.com/taskctl/taskctl/pkg/", "(context.Context)."}
 
 // callMods returns statically the components a call may modify (for loop havoc), or all=true.
 func (tr *FnCtx) callMods(c *ssa.CallCommon) ([]Comp, bool) {
@@ -938,7 +943,7 @@ func (tr *FnCtx) callMods(c *ssa.CallCommon) ([]Comp, bool) {
 		}
 		for _, p := range pureExternalPrefixes {
 			if strings.HasPrefix(c.Method.FullName(), p) {
-				return []Comp{compClock}, false
+				return nil, false
 			}
 		}
 		return nil, true
@@ -986,7 +991,7 @@ func (tr *FnCtx) callMods(c *ssa.CallCommon) ([]Comp, bool) {
 	}
 	for _, p := range pureExternalPrefixes {
 		if strings.HasPrefix(f.String(), p) {
-			return []Comp{compClock}, false
+			return nil, false
 		}
 	}
 	return nil, true
@@ -1102,6 +1107,12 @@ func (tr *FnCtx) call(st *State, c *ssa.CallCommon, instr ssa.Instruction, mode 
 		if spec := tr.W.C.Funcs[pkgKey(pk.Pkg.Path(), fnRelName(f))]; spec != nil {
 			return tr.applyContract(st, f, spec, nil, args, bindings, resT, instr, mode)
 		}
+	}
+	// anchors also work for callees without a contract in the files (extern table, pure externals): "call <Name>#k"
+	{
+		nm := f.Name()
+		tr.callCount["ext:"+nm]++
+		tr.runAts(st, fmt.Sprintf("%s %s#%d", modeWord(mode), nm, tr.callCount["ext:"+nm]), nil)
 	}
 	if h := externFor(f.String()); h != nil {
 		return h.fn(tr, st, args, resT, instr, mode)
